@@ -64,3 +64,38 @@ Definition msg_tok (m : msg) : nat := match m with Ask t => t | Report t _ => t 
 Definition out_tok (o : out) : nat :=
   match o with OProbe t => t | ODecide t _ => t | ORequeue t _ => t | OBadState t => t end.
 Definition empty : table := fun _ => None.
+
+(** * The table as the code keys it.  The gateway remembers a token between its two requests under a key made from
+    the token's id; the entry of a second request holds the channel of whoever made it.  [key] = the identity when the
+    table is keyed by the id itself (the sources: map[id.Id]..., Gen/Facts.v src_probing_key_is_the_id); a key built
+    from less than the whole id maps different tokens to one entry. *)
+Inductive kentry := KAsked | KReady (asker : nat).
+Definition ktable := nat -> option kentry.
+Definition kupd (tb : ktable) (k : nat) (e : option kentry) : ktable := fun x => if x =? k then e else tb x.
+
+Definition handle_k (key : nat -> nat) (nd : list nat) (dflt : option nat) (tb : ktable) (m : msg) : ktable * list out :=
+  match m with
+  | Ask t =>
+      match tb (key t) with
+      | Some _ => (kupd tb (key t) (Some (KReady t)), [])
+      | None => (kupd tb (key t) (Some KAsked), [OProbe t])
+      end
+  | Report t r =>
+      match tb (key t) with
+      | Some KAsked => (tb, [ORequeue t r])
+      | Some (KReady a) => (kupd tb (key t) None, [ODecide a (decide nd dflt r)])
+      | None => (tb, [OBadState t])
+      end
+  end.
+
+Fixpoint run_k (key : nat -> nat) (nd : list nat) (dflt : option nat) (tb : ktable) (ms : list msg) : ktable * list out :=
+  match ms with
+  | [] => (tb, [])
+  | m :: r => let '(tb1, o) := handle_k key nd dflt tb m in
+              let '(tb2, os) := run_k key nd dflt tb1 r in (tb2, o ++ os)
+  end.
+Definition kempty : ktable := fun _ => None.
+
+(* messages as the tokens really send them: a token reports only after it was probed, and asks again only once *)
+Definition erase (e : option kentry) : option entry :=
+  match e with None => None | Some KAsked => Some Asked | Some (KReady _) => Some Ready end.
